@@ -27,10 +27,24 @@
 (* changes to several lists.  FeWindow = TRUE keeps only the schedules in    *)
 (* which every operation happens while a dispatcher is held at the front     *)
 (* gate; Mixed = TRUE only those that change a front-end list AND the routes.*)
+(*                                                                           *)
+(* Overlap = TRUE: schedules of OVERLAPPING admin operations on one real     *)
+(* route (kind "ovl"; NDisp = 0): the last two operations of the history are *)
+(* marked ov1, ov2 -- ov1 a delete of a destination that                     *)
+(* exists (the driver parks it inside the destination's Shutdown, where it   *)
+(* holds the route lock and has loaded the configuration), ov2 ANY operation *)
+(* (started while ov1 is parked; ov1 is released when ov2 waits for the lock *)
+(* or has returned).  The pair ends the history (a route that lists a        *)
+(* destination whose relay has shut down blocks the next operation that      *)
+(* touches it for ever); the operations before it are sequential.            *)
+(* List "rt" is the route's own filter (one entry, id 0):                    *)
+(* OpKinds "rtupd" = modRoute <key> prefix=...  The operations offered for   *)
+(* ov2 are those of the table AFTER ov1 (indexes 0..n-1 of n destinations    *)
+(* before: the last one is valid before the delete and beyond the end after).*)
 EXTENDS TableOps, TLC, Json
 
 CONSTANTS InitN, MaxOps, NDisp, Classes, AddFilters, UpdFilters, OpKinds, StepWise, DelTail,
-          FeGate, RouteGates, FeKinds, FeFilters, FeBl, FeRw, FeAgg, FeWindow, Mixed
+          FeGate, RouteGates, FeKinds, FeFilters, FeBl, FeRw, FeAgg, FeWindow, Mixed, Overlap
 
 VARIABLES cur, nops, nextId, dst, dleft, dld, dcl, hist
 svars == <<cur, nops, nextId, dst, dleft, dld, dcl, hist>>
@@ -42,6 +56,7 @@ Rec(ev, d, c, l, op, e, f, i, k) == [ev |-> ev, d |-> d, c |-> c, l |-> l, op |-
 
 \* the initial table (the driver builds it, front end first, before the schedule starts)
 InitTable == [main |-> [i \in 1..InitN |-> [id |-> i, f |-> 0]],
+              rt   |-> <<[id |-> 0, f |-> 0]>>,
               bl   |-> [i \in 1..FeBl  |-> [id |-> 100 + i, f |-> 0]],
               rw   |-> [i \in 1..FeRw  |-> [id |-> 200 + i, f |-> 0]],
               agg  |-> (IF FeGate THEN <<[id |-> GateId, f |-> 0]>> ELSE <<>>) \o [i \in 1..FeAgg |-> [id |-> 300 + i, f |-> 0]]]
@@ -64,6 +79,7 @@ Choices ==
   \cup (IF "delkey" \in OpKinds THEN {Rec("op", 0, 0, "main", "delkey", 0, 0, 0, k) : k \in DelKeys} ELSE {})
   \cup (IF "updidx" \in OpKinds THEN {Rec("op", 0, 0, "main", "updidx", 0, f, i, 0) : i \in 0..Len(Main), f \in UpdFilters} ELSE {})
   \cup (IF "updkey" \in OpKinds THEN {Rec("op", 0, 0, "main", "updkey", 0, f, 0, k) : k \in KeysNow, f \in UpdFilters} ELSE {})
+  \cup (IF "rtupd" \in OpKinds THEN {Rec("op", 0, 0, "rt", "updidx", 0, f, 0, 0) : f \in UpdFilters} ELSE {})
   \cup UNION { (IF (x \o "+") \in FeKinds
                 THEN {Rec("op", 0, 0, x, "add", nextId, f, 0, 0) : f \in (IF x = "rw" THEN {0} ELSE FeFilters)} ELSE {})
                \cup (IF (x \o "-") \in FeKinds
@@ -71,11 +87,18 @@ Choices ==
 
 AtFront == \E d \in Disp : dst[d] = "front"
 
+\* Overlap: how the operation is issued -- "op" on its own, "ov1" parked half-way, "ov2" while ov1 is parked
+HasOv1 == \E i \in 1..Len(hist) : hist[i].ev = "ov1"
+Labels(o) == IF ~Overlap THEN {"op"}
+             ELSE IF hist # <<>> /\ hist[Len(hist)].ev = "ov1" THEN {"ov2"}
+             ELSE IF nops = MaxOps - 2 /\ o.l = "main" /\ o.op = "delidx" /\ o.i < Len(Main) THEN {"op", "ov1"}
+             ELSE {"op"}
+
 SOp(o) == /\ nops < MaxOps /\ nops' = nops + 1
           /\ (FeWindow => AtFront)
           /\ cur' = [cur EXCEPT ![o.l] = ApplyOp(@, o)]
           /\ nextId' = IF o.op = "add" THEN nextId + 1 ELSE nextId
-          /\ hist' = Append(hist, o)
+          /\ \E lab \in Labels(o) : hist' = Append(hist, [o EXCEPT !.ev = lab])
           /\ UNCHANGED <<dst, dleft, dld, dcl>>
 
 \* where a dispatcher of class c that loaded table T is held next, having passed its front end
@@ -110,5 +133,5 @@ SSpec == SInit /\ [][SNext]_svars
 IsMixed == /\ \E i \in 1..Len(hist) : hist[i].ev = "op" /\ hist[i].l = "main"
            /\ \E i \in 1..Len(hist) : hist[i].ev = "op" /\ hist[i].l # "main"
 Terminal == nops = MaxOps /\ \A d \in Disp : dst[d] = "done"
-Emit == (Terminal /\ (Mixed => IsMixed)) => PrintT("@@S " \o ToJson(hist))
+Emit == (Terminal /\ (Mixed => IsMixed) /\ (Overlap => HasOv1)) => PrintT("@@S " \o ToJson(hist))
 =============================================================================
